@@ -299,8 +299,9 @@ impl<T> FastVec<T> {
         // Verify input parameters
         crate::zipora_verify!(min_cap <= (isize::MAX as usize) / mem::size_of::<T>().max(1),
             "minimum capacity {} too large for element size {}", min_cap, mem::size_of::<T>());
-        crate::zipora_verify_ge!(min_cap, self.len);
-        
+
+        // A request below the current length is already satisfied (len <= cap); it must not
+        // abort the process.
         if min_cap <= self.cap {
             return Ok(());
         }
